@@ -335,7 +335,10 @@ func init() {
 		timerOf(fr, ptrArg(a[0])).stopped = true
 		return nil
 	})
-	reg("(*time.Ticker).Reset", nop)
+	reg("(*time.Ticker).Reset", func(fr *frame, a []value) value {
+		timerOf(fr, ptrArg(a[0])).stopped = false
+		return nil
+	})
 	reg("time.AfterFunc", func(fr *frame, a []value) value {
 		i := fr.i
 		t := i.sched.newTimer(false, i.namedType("time", "Time"))
